@@ -6,6 +6,23 @@
 
 #include "cbor.h"
 
+#if defined(__has_feature)
+#if __has_feature(address_sanitizer)
+#define VA_ASAN 1
+#endif
+#endif
+#if defined(__SANITIZE_ADDRESS__)
+#define VA_ASAN 1
+#endif
+#ifdef VA_ASAN
+#include <sanitizer/asan_interface.h>
+#define VA_POISON(p, n) ASAN_POISON_MEMORY_REGION((p), (n))
+#define VA_UNPOISON(p, n) ASAN_UNPOISON_MEMORY_REGION((p), (n))
+#else
+#define VA_POISON(p, n) ((void)0)
+#define VA_UNPOISON(p, n) ((void)0)
+#endif
+
 struct va_stats va;
 uint64_t va_cap = 1ull << 30;
 uint64_t va_trace[256];
@@ -53,8 +70,20 @@ static int refuse_now(size_t n) {
   if (r) va.refused++;
   return r;
 }
+/* in-place mode (VF_ALLOC_INPLACE=1 or 2): every block is given spare capacity, and a realloc that fits into it returns the SAME pointer - the way
+ * a size-class allocator or glibc at the top of the heap behaves. 1: capacity 2n+64 (a doubling fits once, the next one moves); 2: capacity
+ * 16n+4096 (almost every growth stays in place). Default (0): realloc always moves, which makes stale pointers into the old block fatal. */
+int va_inplace = -1;
+static size_t capacity_for(size_t n) {
+  if (va_inplace < 0) {
+    const char* e = getenv("VF_ALLOC_INPLACE");
+    va_inplace = e ? atoi(e) : 0;
+  }
+  return va_inplace == 1 ? 2 * n + 64 : va_inplace == 2 ? 16 * n + 4096 : n;
+}
 static void* raw_alloc(size_t n) {
-  va_hdr* h = malloc(sizeof(va_hdr) + n);
+  size_t capn = capacity_for(n);
+  va_hdr* h = malloc(sizeof(va_hdr) + capn);
   if (!h) {
     fprintf(stderr, "vf_alloc: libc malloc(%zu) failed\n", n);
     abort();
@@ -62,12 +91,13 @@ static void* raw_alloc(size_t n) {
   h->magic = VA_LIVE_MAGIC;
   h->size = n;
   h->serial = serial++;
-  h->pad = 0;
+  h->pad = capn; /* usable capacity of the block */
   h->next = NULL;
   h->prev = tail;
   if (tail) tail->next = h; else head = h;
   tail = h;
   if (n) memset(h + 1, 0xCD, n);
+  if (capn > n) VA_POISON((unsigned char*)(h + 1) + n, capn - n); /* the spare capacity is not the client's: a write into it is a heap overflow */
   va.live++;
   va.live_bytes += n;
   return h + 1;
@@ -76,6 +106,7 @@ static void raw_free(va_hdr* h) {
   if (h->prev) h->prev->next = h->next; else head = h->next;
   if (h->next) h->next->prev = h->prev; else tail = h->prev;
   h->magic = VA_DEAD_MAGIC;
+  if (h->pad > h->size) VA_UNPOISON((unsigned char*)(h + 1) + h->size, h->pad - h->size);
   if (h->size) memset(h + 1, 0xDD, h->size);
   va.live--;
   va.live_bytes -= h->size;
@@ -111,6 +142,15 @@ void* va_realloc(void* p, size_t n) {
     }
   }
   if (refuse_now(n)) return NULL;
+  if (h && va_inplace > 0 && n <= h->pad) { /* grows (or shrinks) in place: same pointer */
+    VA_UNPOISON((unsigned char*)p, h->pad);
+    if (n > h->size) memset((unsigned char*)p + h->size, 0xCD, n - h->size);
+    if (h->pad > n) VA_POISON((unsigned char*)p + n, h->pad - n);
+    va.live_bytes += n - h->size;
+    h->size = n;
+    va.inplace_reallocs++;
+    return p;
+  }
   void* q = raw_alloc(n); /* always moves: stale pointers into the old block become use-after-free */
   if (h) {
     memcpy(q, p, h->size < n ? h->size : n);
